@@ -1,12 +1,21 @@
-From Coq Require Import List Bool Arith.
-Require Import V.Base.ListAux V.Base.CorrAux V.Base.NdArray V.Usid.AncBuild V.Usid.Translate.
+From Coq Require Import List Bool Arith ZArith.
+Require Import V.Base.ListAux V.Base.CorrAux V.Base.NdArray V.Usid.AncBuild V.Usid.Translate V.Usid.TranslateNorm.
 Import ListNotations.
+
+Fixpoint all2n {A B} (f : A -> B -> bool) (l1 : list A) (l2 : list B) : bool :=
+  match l1, l2 with
+  | [], [] => true
+  | x :: l, y :: m => f x y && all2n f l m
+  | _, _ => false
+  end.
 
 Inductive case19 :=
 | CImage (img : list (list nat)) (obs_rows : list nat) (obs_labels : list nat) (obs_inds obs_vals : list (list nat))
 | CSidpy (shape : list nat) (data : list nat) (spatial : list bool)
          (obs_shape : nat * nat) (obs_data : list nat) (plabels : list nat) (pinds : list (list nat)) (slabels : list nat) (sinds : list (list nat))
-| CGate (a : at_args) (obs_code : nat) (file_exists_after : bool).
+| CGate (a : at_args) (obs_code : nat) (file_exists_after : bool)
+(* normalize=True: the written column as exact binary fractions (numerator, denominator; denominator 0 = NaN) *)
+| CImageNorm (img : list (list nat)) (obs : list (Z * Z)).
 
 Definition terr_code (e : option terr) : nat := match e with None => 0 | Some TTypeE => 1 | Some TValueE => 2 | Some TKeyE => 3 end.
 
@@ -26,4 +35,5 @@ Definition check19 (c : case19) : bool :=
       Nat.eqb (fst oshape) (prod sp) && Nat.eqb (snd oshape) (prod sc) && nat_list_eqb (nd_data t) odata
       && nat_list_eqb wpl pl && nat_list2_eqb wpi pinds && nat_list_eqb wsl sl && nat_list2_eqb wsi sinds
   | CGate a code fe => Nat.eqb (terr_code (at_gate a)) code && Bool.eqb (at_file_written a) fe
+  | CImageNorm img obs => all2n norm_close (image_rows_normalized img) obs
   end.
